@@ -22,7 +22,7 @@ SPEC = {
     "assumptions": ["vlib/prims.py operator semantics (shared by both sides, so an error there cancels out)",
                     "vlib/refeval.py reading of the documented source semantics", "vlib/avm.py control/stack/scratch/frame semantics"],
     "min_evaluations": {"quick": 8000, "thorough": 100000},
-    "must_reach": ["agree_approve", "agree_reject", "agree_fail", "mode_sig", "mode_app", "skeleton_cases", "first_statement_cases", "multivalue_ok", "loops_iterated_2plus", "object_compiled_twice"],
+    "must_reach": ["agree_approve", "agree_reject", "agree_fail", "mode_sig", "mode_app", "skeleton_cases", "first_statement_cases", "multivalue_ok", "optimised_agree", "optimised_accesses_deleted", "loops_iterated_2plus", "object_compiled_twice"],
     "shard_timeout": {"quick": 2400, "thorough": 14400},
 }
 
@@ -44,6 +44,71 @@ def versions_for(rng, recipe, vgen):
     if rng.random() < .5:
         vs.add(rng.choice(cands))
     return sorted(vs)
+
+
+KNOWN_OPT = "C01-optimizer-unpaired-store"
+_PROBE = []
+
+
+def default_options_run(acc, recipe, v, ctxs, refs, origin, ss):
+    """The same recipe compiled the way a user who passes no options gets it at v9+ (scratch-slot optimisation on), or with the
+    optimisation requested explicitly.  The one known optimiser defect is attributed exactly as in C03/C05: the probe on the
+    deletion routine saw more stores than loads deleted AND the mismatch disappears when deletion is restricted to paired accesses."""
+    from .. import rcase
+    from . import c03
+    if not _PROBE:
+        _PROBE.append(c03.OptProbe())
+    probe = _PROBE[0]
+    probe.reset()
+    c = rcase.compile_recipe(recipe, v, recipe["mode"], scratch_slots=ss)
+    unpaired = c03.known_mechanism(probe.events)
+    deleted = sum(ns + nl for ns, nl in probe.events)
+    if c.prog is None:
+        acc.counters["optimised_not_emitted"] += 1
+        return
+    acc.counters["optimised_compilations"] += 1
+    acc.counters["optimised_accesses_deleted"] += deleted
+    info = rcase.routine_info_for(recipe)
+    bad = []
+    for cd, ref in zip(ctxs, refs):
+        if ref is None:
+            continue
+        got = rcase.run_avm(c.prog, cd, routine_info=info, max_steps=100 * ref.steps + 20000)
+        if got.dropped or (rcase.is_resource(got) and ref.status != "fail"):
+            continue
+        acc.evaluations += 1
+        diffs = rcase.compare(ref, got)
+        if diffs:
+            bad.append((cd, diffs))
+        else:
+            acc.counters["optimised_agree"] += 1
+    if not bad:
+        return
+    mech = None
+    if unpaired:
+        probe.reset(neutralise=True)
+        c2 = rcase.compile_recipe(recipe, v, recipe["mode"], scratch_slots=ss)
+        probe.reset()
+        if c2.prog is not None:
+            ok = True
+            for cd, ref in zip(ctxs, refs):
+                if ref is None:
+                    continue
+                g2 = rcase.run_avm(c2.prog, cd, routine_info=info, max_steps=100 * ref.steps + 20000)
+                if not g2.dropped and not (rcase.is_resource(g2) and ref.status != "fail") and rcase.compare(ref, g2):
+                    ok = False
+            if ok:
+                mech = KNOWN_OPT
+    cd, diffs = bad[0]
+    acc.violation("outcome_mismatch", {"recipe": recipe, "version": v, "ctx": cd, "origin": origin, "scratch_slots": ss, "optimizer_unpaired": unpaired, "mechanism": mech},
+                  "with scratch-slot optimisation on (scratch_slots=%s at v%d): %s" % (ss, v, "; ".join(diffs)[:800]), teal=c.teal[-3000:])
+
+
+def classify(v):
+    case = v.get("case") or {}
+    if case.get("mechanism") == KNOWN_OPT and case.get("optimizer_unpaired"):
+        return KNOWN_OPT
+    return None
 
 
 def check_recipe(acc, recipe, versions, ctxs, origin, check_san=True):
@@ -80,6 +145,8 @@ def check_recipe(acc, recipe, versions, ctxs, origin, check_san=True):
                     acc.violation("unparseable", {"recipe": recipe, "version": v, "origin": origin}, c.err)
             continue
         acc.counters["compiled_v%d" % v] += 1
+        if v >= 9 or (int(key, 16) >> 4) % 5 == 0:
+            default_options_run(acc, recipe, v, ctxs, refs, origin, None if v >= 9 else True)
         info = rcase.routine_info_for(recipe)
         for cd, ref in zip(ctxs, refs):
             if ref is None:
